@@ -145,6 +145,18 @@ def one(ctx, i):
             s = sum(probs[('u', tuple(int(x) for x in u))] for u in unf)
             if not C.close(probs[('f', c)], s, 1e-9, 1e-13):
                 ctx.violation('folded-sum', cfg=cfg, theta=theta, config=c, folded=probs[('f', c)], sum_unfolded=s, unfoldings=[list(map(int, u)) for u in unf])
+    # the same object asked again with ANOTHER mutation rate must answer for that rate
+    theta2 = rng.choice([t for t in (0.125, 0.5, 1.0, 3.0) if t != theta])
+    for kind, dist, nb in (('u', coal.sfs, n - 1), ('f', coal.fsfs, n // 2)):
+        for c in configs_upto(nb, 2)[:4]:
+            with C.LogCapture():
+                p2 = float(dist.get_mutation_config(config=list(c), theta=theta2))
+            exp2 = float(Fraction(drv.ask(f'mutcfg {kind} {C.rs(theta2)} {C.nlist(c)}')))
+            if not abs(p2 - exp2) <= 1e-10 * abs(exp2) + 1e-14:
+                ctx.violation(f'second-theta:{kind}', cfg=cfg, theta=theta2, first_theta=theta, config=c, expected=exp2, observed=p2,
+                              oracle='Lean model mutConfigProb; same object queried earlier with first_theta')
+                break
+    ctx.count('second-theta')
     # generated_mass bookkeeping of the iterator
     if theta > 0 and rng.random() < 0.5:
         it = coal.sfs.get_mutation_configs(theta=theta)
